@@ -27,6 +27,9 @@ func propC11(c *Ctx, r *Report) {
 	r.floor("flag.nest", 2)
 	c.runForHeader(r, "parse.forheader", "wgsl/internal/parser")
 	r.floor("parse.forheader", 8)
+	r.Clauses = append(r.Clauses, argsRoleClause)
+	c.runArgsNameRole(r, "args.namerole", inPkgs("wgsl", "ir"))
+	r.floor("args.namerole", 20)
 	r.Clauses = append(r.Clauses, epCoverClause)
 	c.runEPFunctionsCovered(r, "epfunctions.covered", inPkgs("ir", "dxil/internal/passes"), nil)
 	r.floor("epfunctions.covered", 4)
